@@ -1,0 +1,78 @@
+// SPDX-FileCopyrightText: 2026 The Pion community <https://pion.ly>
+// SPDX-License-Identifier: MIT
+
+//go:build verif
+
+package flexfec
+
+// Machine-checked contracts (comment-only; read by /verif/govc, never compiled into a normal build).
+//
+// ---- FlexFEC-03 masks (property C14): header mask words name exactly the covered media packet indices
+//
+//@ func extractMask1
+//@   modifies nothing
+//@   ensures bits_0_14: forall k uint32 :: k < 15 ==> (((result >> (14 - k)) & 1 == 1) <==> bitOf(mask.Lo, mask.Hi, k))
+//@   ensures k_bit_clear: result >> 15 == 0
+//@
+//@ func extractMask2
+//@   modifies nothing
+//@   ensures bits_15_45: forall k uint32 :: 15 <= k && k < 46 ==> (((result >> (45 - k)) & 1 == 1) <==> bitOf(mask.Lo, mask.Hi, k))
+//@   ensures k_bit_clear: result >> 31 == 0
+//@
+//@ func extractMask3_03
+//@   # the three FlexFEC-03 mask words hold 15 + 31 + 63 = 109 bits: index 109 (and beyond) cannot be named
+//@   requires representable: forall k uint32 :: 109 <= k && k < 128 ==> !bitOf(mask.Lo, mask.Hi, k)
+//@   modifies nothing
+//@   ensures bits_46_108: forall k uint32 :: 46 <= k && k < 109 ==> (((result >> (108 - k)) & 1 == 1) <==> bitOf(mask.Lo, mask.Hi, k))
+//@   ensures k_bit_clear: result >> 63 == 0
+//@
+//@ # interleaved coverage: repair packet f protects media packet x iff x < numMedia and x mod numFec == f
+//@ pred covInv(p *ProtectionCoverage) := p.numFecPackets <= 110 && p.numMediaPackets <= 110
+//@     && (forall f uint32, x uint32 :: f < p.numFecPackets && x < 128 ==>
+//@           (bitOf(p.packetMasks[f].Lo, p.packetMasks[f].Hi, x) <==> (x < p.numMediaPackets && x % p.numFecPackets == f)))
+//@
+//@ func (*ProtectionCoverage).resetCoverage
+//@   modifies p.packetMasks
+//@   ensures cleared: forall f uint32 :: f < 110 ==> p.packetMasks[f].Lo == 0 && p.packetMasks[f].Hi == 0
+//@   loop 1 invariant cleared: 0 <= rangeint_iter && rangeint_iter < 110 && (forall f uint32 :: f < rangeint_iter ==> p.packetMasks[f].Lo == 0 && p.packetMasks[f].Hi == 0)
+//@   loop 1 decreases 110 - rangeint_iter
+//@
+//@ func (*ProtectionCoverage).UpdateCoverage
+//@   requires inv: covInv(p)
+//@   requires config: numFecPackets <= 110 && len(mediaPackets) < (1 << 31)
+//@   modifies p.packetMasks, p.numFecPackets, p.numMediaPackets, p.mediaPackets
+//@   ensures inv: covInv(p)
+//@   ensures rejected: (len(mediaPackets) == 0 || len(mediaPackets) > 110) ==> p.numFecPackets == old(p.numFecPackets) && p.numMediaPackets == old(p.numMediaPackets) && p.mediaPackets == old(p.mediaPackets)
+//@   ensures accepted: 1 <= len(mediaPackets) && len(mediaPackets) <= 110 ==> p.numFecPackets == numFecPackets && p.numMediaPackets == uint32(len(mediaPackets)) && p.mediaPackets == mediaPackets
+//@   loop 1 invariant shape: p.numFecPackets == numFecPackets && p.numMediaPackets == numMediaPackets && numMediaPackets <= 110 && 1 <= numMediaPackets && p.mediaPackets == mediaPackets
+//@   loop 1 invariant done: rangeint_iter < numFecPackets && (forall f uint32, x uint32 :: f < rangeint_iter && x < 128 ==>
+//@           (bitOf(p.packetMasks[f].Lo, p.packetMasks[f].Hi, x) <==> (x < numMediaPackets && x % numFecPackets == f)))
+//@   loop 1 invariant rest_clear: forall f uint32 :: rangeint_iter <= f && f < 110 ==> p.packetMasks[f].Lo == 0 && p.packetMasks[f].Hi == 0
+//@   loop 1 decreases numFecPackets - rangeint_iter
+//@   loop 2 invariant shape: p.numFecPackets == numFecPackets && p.numMediaPackets == numMediaPackets && numMediaPackets <= 110 && 1 <= numMediaPackets && p.mediaPackets == mediaPackets
+//@        && rangeint_iter < numFecPackets
+//@   loop 2 invariant stride: coveredMediaPacketIndex % numFecPackets == rangeint_iter && coveredMediaPacketIndex < 256
+//@   loop 2 invariant current: forall x uint32 :: x < 128 ==> (bitOf(p.packetMasks[rangeint_iter].Lo, p.packetMasks[rangeint_iter].Hi, x) <==>
+//@           (x < coveredMediaPacketIndex && x < numMediaPackets && x % numFecPackets == rangeint_iter))
+//@   loop 2 invariant done: forall f uint32, x uint32 :: f < rangeint_iter && x < 128 ==>
+//@           (bitOf(p.packetMasks[f].Lo, p.packetMasks[f].Hi, x) <==> (x < numMediaPackets && x % numFecPackets == f))
+//@   loop 2 invariant rest_clear: forall f uint32 :: rangeint_iter < f && f < 110 ==> p.packetMasks[f].Lo == 0 && p.packetMasks[f].Hi == 0
+//@   loop 2 decreases numMediaPackets + numFecPackets - coveredMediaPacketIndex
+//@
+//@ func (*ProtectionCoverage).ExtractMask1
+//@   requires inv: covInv(p) && fecPacketIndex < p.numFecPackets
+//@   modifies nothing
+//@   ensures bits_0_14: forall k uint32 :: k < 15 ==> (((result >> (14 - k)) & 1 == 1) <==> (k < p.numMediaPackets && k % p.numFecPackets == fecPacketIndex))
+//@
+//@ func (*ProtectionCoverage).ExtractMask2
+//@   requires inv: covInv(p) && fecPacketIndex < p.numFecPackets
+//@   modifies nothing
+//@   ensures bits_15_45: forall k uint32 :: 15 <= k && k < 46 ==> (((result >> (45 - k)) & 1 == 1) <==> (k < p.numMediaPackets && k % p.numFecPackets == fecPacketIndex))
+//@
+//@ func (*ProtectionCoverage).ExtractMask3_03
+//@   requires inv: covInv(p) && fecPacketIndex < p.numFecPackets
+//@   modifies nothing
+//@   ensures bits_46_108: forall k uint32 :: 46 <= k && k < 109 ==> (((result >> (108 - k)) & 1 == 1) <==> (k < p.numMediaPackets && k % p.numFecPackets == fecPacketIndex))
+//@
+//@ # every media packet of an accepted batch is protected by some repair packet
+//@ lemma every_packet_covered: forall nf uint32, x uint32 :: 1 <= nf ==> x % nf < nf
